@@ -189,6 +189,14 @@ pub fn histories() -> Vec<(String, Cfg, Vec<Op>)> {
             big.extend((0..100_000usize).map(|i| 0x10 + (i % 0xe0) as u8));
             out.push((format!("large-sample/{}", if fast { "fast" } else { "std" }), c, vec![Op::WV { pts: T(0.0), data: Bytes::new(k), key: true }, Op::WV { pts: T(0.04), data: Bytes::new(big), key: false }]));
         }
+        // lopsided tracks: one video frame with four audio frames, four video frames with one
+        // audio frame (code that indexes one track with the other's position)
+        {
+            let c = Cfg::basic(VCodec::H264, Some(ACodec::Opus), fast);
+            out.push((format!("audio-heavy/{}", if fast { "fast" } else { "std" }), c.clone(), hist::build_ops(&c, &spec(vec![true, false, false, false, false], PtsMode::Plain, vec![]))));
+            let c = Cfg::basic(VCodec::Vp9, Some(ACodec::AacLc), fast);
+            out.push((format!("video-heavy/{}", if fast { "fast" } else { "std" }), c.clone(), hist::build_ops(&c, &spec(vec![true, true, false, true, true], PtsMode::Plain, vec![]))));
+        }
         // zero-frame and single-frame files
         let c = Cfg::basic(VCodec::H264, None, fast);
         out.push((format!("zero-frame/{}", if fast { "fast" } else { "std" }), c.clone(), vec![]));
@@ -308,7 +316,7 @@ fn deviation_scripts(ncalls: usize, max_dev: usize, menu: &[Ans]) -> Vec<Script>
 /// For C02: whenever a finish call reports success - also a *retried* finish after a failed one -
 /// what the sink holds must be one well-formed file. Every history x failure at every write call
 /// x {Other, every other kind, Ok(0)} x three finish attempts.
-pub fn retry_part(ctx: &Ctx) -> Tally {
+pub fn retry_part(ctx: &Ctx, prop: &'static str) -> Tally {
     use oracle::reader::{parse_movie, Class};
     let hs = histories();
     par_items(&hs, ctx.seed, |idx, (name, cfg, ops), t| {
@@ -327,9 +335,9 @@ pub fn retry_part(ctx: &Ctx) -> Tally {
                 t.states += 1;
                 t.transitions += r.results.len() as u64;
                 let order = (5_000_000 + idx as u64, (k * 64 + j) as u64);
-                let case = || json!({"engine": "E3-c02", "history": name, "cfg": cfg, "ops": full, "script": script});
+                let case = || json!({"engine": "E3-c02", "history": name, "cfg": cfg, "ops": full, "script": script, "oracle": prop});
                 if let Some((i, m)) = r.results.iter().enumerate().find_map(|(i, x)| if let Res::Panic(m) = x { Some((i, m.clone())) } else { None }) {
-                    t.violation("C02/after-failed-finish/panic", order, || format!("{name}: call {i} panicked: {m}"), case);
+                    t.violation(&format!("{prop}/after-failed-finish/panic"), order, || format!("{name}: call {i} panicked: {m}"), case);
                     continue;
                 }
                 let n = r.results.len();
@@ -341,6 +349,15 @@ pub fn retry_part(ctx: &Ctx) -> Tally {
                 }
                 t.traces += 1;
                 let m = parse_movie(&r.accepted, "prog");
+                if prop == "C01" {
+                    // a finish that reports success must leave a file whose tables resolve to
+                    // the accepted frames, also when an earlier attempt failed half-way
+                    let e = oracle::fileck::expect_from(cfg, &full, &r.results);
+                    if let Some((sig, detail)) = oracle::fileck::c01(&r.accepted, &m, cfg, &e).into_iter().next() {
+                        t.violation("C01/after-failed-finish/samples-do-not-resolve", order, || format!("{name}: write call {k} answered {a:?}; a finish call then reported success, but the sink's {} bytes do not resolve to the accepted frames: {sig}: {detail}", r.accepted.len()), case);
+                    }
+                    continue;
+                }
                 if let Some(p) = m.probs.of(&[Class::Tile, Class::Mandatory, Class::Count]).first() {
                     // (the box path of the first problem is in the detail; it depends on the bytes)
                     t.violation("C02/after-failed-finish/not-one-well-formed-file", order, || format!("{name}: write call {k} answered {a:?}; a finish call then reported success, but the sink holds {} bytes that are not one well-formed file: {}: {}", r.accepted.len(), p.sig, p.detail), case);
@@ -458,6 +475,17 @@ pub fn replay(case: &Value) -> i32 {
             return 0;
         }
         let m = parse_movie(&r.accepted, "prog");
+        if case["oracle"].as_str() == Some("C01") {
+            let e = oracle::fileck::expect_from(&cfg, &ops, &r.results);
+            let issues = oracle::fileck::c01(&r.accepted, &m, &cfg, &e);
+            for (s, d) in &issues {
+                println!("replay: VIOLATION {s}: {d}");
+            }
+            if issues.is_empty() {
+                println!("replay: property C01 holds for this case");
+            }
+            return if issues.is_empty() { 0 } else { 1 };
+        }
         let probs = m.probs.of(&[Class::Tile, Class::Mandatory, Class::Count]);
         for p in &probs {
             println!("replay: VIOLATION {}: {}", p.sig, p.detail);
